@@ -253,7 +253,7 @@ class MapCase(FnCase):
             out.append(('index.not_in_use', Not(Select(self.in_use, idx))))
             out.append(('index.nonneg', idx >= 0))
             out.append(('mapped', And(Select(Select(cv[5], K0), ck), Select(Select(cv[6], K0), ck) == idx)))
-            out.append(('order', Select(cv[7], K0) == If(Select(dom0, ck), ord0, Concat(ord0, Unit(ck)))))
+            out.append(('order', Select(cv[7], K0) == If(Select(dom0, ck), ord0, Concat(ord0, Unit(self.mk)))))
             kk = Const('ek', Val)
             out.append(('other_keys', ForAll([kk], Implies(kk != ck, And(Select(Select(cv[5], K0), kk) == Select(dom0, kk),
                                                                          Select(Select(cv[6], K0), kk) == Select(val0, kk))))))
